@@ -1,6 +1,10 @@
 package server
 
 import (
+	"context"
+	"sync"
+
+	"github.com/osrg/gobgp/v4/pkg/config/oc"
 	"github.com/osrg/gobgp/v4/pkg/packet/bgp"
 )
 
@@ -22,4 +26,82 @@ func VH_c06_handling_error() {
 	}
 	vAssert(got == want, "reaction differs from the error's class (revised handling) / session reset (otherwise)")
 	vReach("end")
+}
+
+// C06 (receive loop): the real recvMessageloop reads one UPDATE with up to two catalogue faults from
+// the transport and either hands it to the server callback with the reaction to apply, or queues
+// the NOTIFICATION that resets the session.
+func VH_c06_recvloop() {
+	f1, f2 := vChoice("fault", c06nFaults), vChoice("fault", c06nFaults)
+	if vParam("two") == 0 {
+		f2 = c06none
+	}
+	vAssume(c06compatible(f1, f2))
+	if f2 != c06none {
+		vAssume(f1 < f2)
+	}
+	ebgp, revised := vBool("ebgp"), vBool("revised_error_handling")
+	m := c06build()
+	m.inject(f1)
+	m.inject(f2)
+	want := c06class(f1, ebgp)
+	if c := c06class(f2, ebgp); c > want {
+		want = c
+	}
+	if !revised && want != bgp.ERROR_HANDLING_NONE {
+		want = bgp.ERROR_HANDLING_SESSION_RESET
+	}
+	body := m.bytes()
+	total := 19 + len(body)
+	wire := make([]byte, 16, total)
+	for i := range wire {
+		wire[i] = 0xff
+	}
+	wire = append(wire, byte(total>>8), byte(total), bgp.BGP_MSG_UPDATE)
+	wire = append(wire, body...)
+	conn := &vConn{in: wire}
+
+	f := newFSM(&oc.Global{}, &oc.Neighbor{}, bgp.BGP_FSM_ESTABLISHED, vLogger())
+	f.isEBGP, f.isTreatAsWithdraw = ebgp, revised
+	f.familyMap.Store(map[bgp.Family]bgp.BGPAddPathMode{bgp.RF_IPv4_UC: bgp.BGP_ADD_PATH_NONE, bgp.RF_IPv6_UC: bgp.BGP_ADD_PATH_NONE})
+	var got []*fsmMsg
+	h := &fsmHandler{fsm: f, callback: func(m *fsmMsg) { got = append(got, m) }}
+	wg := &sync.WaitGroup{}
+	wg.Add(1)
+	h.recvMessageloop(context.Background(), conn, make(chan struct{}, 2), make(chan fsmStateReason, 3), wg)
+
+	var notif *bgp.BGPMessage
+	select {
+	case notif = <-f.notification:
+	default:
+	}
+	if want == bgp.ERROR_HANDLING_SESSION_RESET {
+		vAssert(notif != nil, "a malformed UPDATE that calls for a session reset queued no NOTIFICATION")
+		vAssert(len(got) == 0, "an UPDATE that resets the session was still handed to the RIB")
+		if notif != nil {
+			n := notif.Body.(*bgp.BGPNotification)
+			vAssert(n.ErrorCode == bgp.BGP_ERROR_UPDATE_MESSAGE_ERROR || n.ErrorCode == bgp.BGP_ERROR_MESSAGE_HEADER_ERROR, "NOTIFICATION for a malformed UPDATE does not carry an UPDATE/header error code")
+		}
+		vReach("reset")
+		return
+	}
+	vAssert(notif == nil, "an UPDATE that does not call for a reset queued a NOTIFICATION")
+	vAssert(len(got) == 1, "the UPDATE was not handed to the server exactly once")
+	if len(got) != 1 {
+		return
+	}
+	vAssert(got[0].handling == want, "the reaction handed to the server differs from the strongest class the faults call for")
+	u := got[0].MsgData.(*bgp.BGPMessage).Body.(*bgp.BGPUpdate)
+	if want == bgp.ERROR_HANDLING_NONE || want == bgp.ERROR_HANDLING_ATTRIBUTE_DISCARD {
+		// the route is going to be installed: mandatory attributes present, none malformed
+		seen := map[bgp.BGPAttrType]int{}
+		for _, a := range u.PathAttributes {
+			seen[a.GetType()]++
+		}
+		vAssert(seen[bgp.BGP_ATTR_TYPE_ORIGIN] == 1 && seen[bgp.BGP_ATTR_TYPE_AS_PATH] == 1 && seen[bgp.BGP_ATTR_TYPE_NEXT_HOP] == 1, "an UPDATE lacking a mandatory attribute is installed")
+		vAssert(seen[bgp.BGP_ATTR_TYPE_MULTI_EXIT_DISC] <= 1 && seen[bgp.BGP_ATTR_TYPE_AGGREGATOR] == 0, "an attribute that arrived malformed or duplicated is installed")
+		vReach("install")
+	} else {
+		vReach("withdraw")
+	}
 }
